@@ -4,6 +4,7 @@ import (
 	"fmt"
 	"math/rand"
 	"reflect"
+	"regexp"
 	"strconv"
 	"strings"
 	"unicode/utf8"
@@ -122,6 +123,8 @@ func c08String(ctx *core.Ctx, class, w string) {
 	}
 }
 
+var plainNumber = regexp.MustCompile(`^-?[0-9]+(\.[0-9]+)?$`)
+
 func c08Positions(ctx *core.Ctx, class, spelling, w string, v qt.Value) {
 	other := qt.Word("zzz")
 	cases := []struct {
@@ -138,6 +141,27 @@ func c08Positions(ctx *core.Ctx, class, spelling, w string, v qt.Value) {
 		{"list-member", qt.List("f", v, other), "", []string{w, "zzz"}},
 		{"comparison", qt.Cmp("f", ">=", v), "", []string{w}},
 		{"in-compound", qt.And(qt.Not(qt.F("f", v)), qt.F("g", other)), "", []string{w, "zzz"}},
+		// the same value more than once in one list: every occurrence is a value of its own
+		{"list-twice", qt.List("f", v, v), "", []string{w, w}},
+		{"list-twice-of-three", qt.List("f", other, v, v), "", []string{"zzz", w, w}},
+	}
+	if spelling == "quoted" && plainNumber.MatchString(w) {
+		// quoted digits next to the number they spell: a string and a number, both kept
+		num := qt.Float(w)
+		if _, err := strconv.Atoi(w); err == nil {
+			num = qt.IntText(w)
+		}
+		cases = append(cases, struct {
+			pos  string
+			tree *qt.Node
+			df   string
+			strs []string
+		}{"list-next-to-its-number", qt.List("f", num, v), "", []string{w}}, struct {
+			pos  string
+			tree *qt.Node
+			df   string
+			strs []string
+		}{"list-before-its-number", qt.List("f", v, num, other), "", []string{w, "zzz"}})
 	}
 	for _, c := range cases {
 		c := c
@@ -236,6 +260,20 @@ func c08Check(ctx *core.Ctx, class, spelling, pos, w, text string, tree *qt.Node
 			wantP := []any{}
 			for _, s := range strs {
 				wantP = append(wantP, s)
+			}
+			// this property speaks about the string values; a number standing next to them in a
+			// list is a parameter too, but its value is C04's business
+			if strings.HasPrefix(pos, "list-") && strings.Contains(pos, "-its-number") {
+				only := []any{}
+				for _, p := range params {
+					if _, isStr := p.(string); isStr {
+						only = append(only, p)
+					}
+				}
+				if len(only) != len(params)-1 {
+					only = params // the number is gone or was re-typed: report the full list
+				}
+				params = only
 			}
 			if !reflect.DeepEqual(params, wantP) {
 				ctx.Violate(sigBase+":params:"+c08ValueClass(w), "string %q spelled %q: parameters %#v, want %#v (sql %q)", w, text, params, wantP, psql)
